@@ -9,6 +9,7 @@ import Y0.Driver.Id
 import Y0.Driver.Latent
 import Y0.Driver.Cf
 import Y0.Driver.Transport
+import Y0.Driver.Tian
 
 open Y0 Y0.Driver
 
@@ -24,6 +25,7 @@ def dispatch (line : String) : String :=
       | "latent" => handleLatent op args
       | "cf" => handleCf op args
       | "transport" => handleTransport op args
+      | "tian" => handleTian op args
       | _ => none
     match r with
     | some s => toString s
